@@ -133,5 +133,10 @@ func (s *CLSignature) Randomize(pk *gabikeys.PublicKey) (*CLSignature, error) {
 	APrime.Mod(APrime, pk.N)
 	t := new(big.Int).Mul(s.E, r)
 	VPrime := new(big.Int).Sub(s.V, t)
-	return &CLSignature{A: APrime, E: new(big.Int).Set(s.E), V: VPrime}, nil
+	randomized := &CLSignature{A: APrime, E: new(big.Int).Set(s.E), V: VPrime}
+	if s.KeyshareP != nil {
+		// the keyshare contribution is part of what the signature is verified against
+		randomized.KeyshareP = new(big.Int).Set(s.KeyshareP)
+	}
+	return randomized, nil
 }
